@@ -214,6 +214,7 @@ PROPERTIES = {
     'verus': ['paren', 'strlit', 'ifchain', 'lexer'],
     'verus_only': {'lexer': ['WrappedLogosLexer::lex_str_lit_opt']},
     'verus_route': {'lexer': 'literals'},
+    'quick_witness': ['printmods'],
     'kani': ['prec'],
     'level': 'proof',
     'scope': 'kernels only: the precedence table used by the formatter against the grammar\'s binding levels; the '
